@@ -87,6 +87,10 @@ var c35Families = []c35Family{
 	{"fenceinfo", "```", []string{"a", "b", " ", "\\", "&amp;", "&#35;", "`", "~", "\n", "```", "*", "&lt"}, 4, 5, true, nil},
 	// HTML blocks inside and next to containers.
 	{"containerhtml", "", []string{"> ", "- ", "<a>", "<!--", "-->", "<td>", "</td>", "\n", "\n\n", "a", "  ", " "}, 4, 5, true, nil},
+	// Whole lines: empty list items, blockquote prefixes and lines that are
+	// blank only after the enclosing containers' markers are removed ("a list
+	// item can begin with at most one blank line" inside containers).
+	{"quotedlists", "", []string{"> -\n", "> 1.\n", ">\n", ">   a\n", "> a\n", "-\n", "  >\n", "  > a\n", "> > -\n", "> >\n", "\n"}, 4, 5, true, nil},
 	// Block structure at the character level: markers with and without
 	// spaces, indentation, fences, thematic breaks, lazy continuation.
 	{"blocks", "", []string{"a", " ", "  ", "\n", "-", "+", "*", "1.", "2)", ">", "#", "~~~", "```", "---"}, 5, 6, true, nil},
